@@ -135,7 +135,8 @@ where
 // `read_text()` yields the raw (still escaped) element content.
 fn read_name(reader: &mut NsReader<&[u8]>, start: &BytesStart<'_>) -> Result<Name, ReadError> {
     let raw = reader.read_text(start.to_end().name())?;
-    let name = unescape(&raw).map_err(quick_xml::Error::from)?;
+    // names are tokens: surrounding whitespace (a pretty-printed reply) is not part of them
+    let name = unescape(raw.trim()).map_err(quick_xml::Error::from)?;
     Ok(Name::new(name))
 }
 
@@ -371,7 +372,7 @@ impl<'i> BorrowedReadXml<'i> for Term<'i> {
                     if tag.local_name().as_ref() == b"name" && name.is_none() =>
                 {
                     tracing::trace!(?tag);
-                    name = Some(reader.read_text(tag.to_end().name())?);
+                    name = Some(trimmed(reader.read_text(tag.to_end().name())?));
                 }
                 (ResolveResult::Bound(XNM), Event::Start(tag))
                     if tag.local_name().as_ref() == b"from" && from.is_none() =>
